@@ -1,0 +1,23 @@
+//go:build verif
+
+package batchers
+
+import (
+	"io"
+	"time"
+)
+
+// VerifOpenReaderToChan is OpenReaderToChan with the auto-flush timeout as a parameter, so that
+// the verification harness can exercise timer-forced flushes without waiting 250ms per case.
+func VerifOpenReaderToChan(sourceName string, reader io.ReadCloser, batchSize, batchBuffer int, autoFlush time.Duration) *Batcher {
+	out := newBatcher(batchBuffer)
+
+	go func() {
+		defer reader.Close()
+		defer out.close()
+		out.startFileReading(sourceName)
+		out.syncReaderToBatcherWithTimeFlush(sourceName, reader, batchSize, autoFlush)
+	}()
+
+	return out
+}
